@@ -26,12 +26,14 @@ def addOrigin (c : GCfg) (origin : Option Node) (g : GState) (k : Nat) : GState 
   | some o => if c.withWorkflowOrigin then g.add (.b k, .tf "origin", o) else g
   | none => g
 
-/-- a source that has no node yet, attached to node `cur` -/
+/-- a source that has no node yet, attached to node `cur`: whether the type counts as canonical is decided on the
+STORED type `ty`; the type that is registered and annotated is `normT G.store ty` -/
 def srcBody (G : GLang) (c : GCfg) (root : Node) (origin : Option Node) (g0 : GState) (cur id : Nat) (ty : Term) :
     Except GErr (GState × Nat) :=
   let g := { g0 with srcNodes := g0.srcNodes ++ [(id, cur)] }
   let r : Except GErr GState :=
-    if c.withTypes && (inCanon G ty || c.withNoncanonicalTypes) then annotateType G c g root cur ty false else .ok g
+    if c.withTypes && (inCanon G ty || c.withNoncanonicalTypes) then
+      annotateType G c g root cur (normT G.store ty) false (some (inCanon G ty)) else .ok g
   match r with
   | .error e => .error e
   | .ok g => .ok (addOrigin c origin g cur, cur)
@@ -43,10 +45,11 @@ def opTriples (c : GCfg) (root : Node) (g : GState) (cur : Nat) (name : String) 
     if c.withMembership then g.add (root, .tf "containsOperation", .ns name) else g
   else g
 
-/-- an operator leaf attached to node `cur` -/
+/-- an operator leaf attached to node `cur`: the annotated type is `normT G.store (outputType 1000 ty)` (`output()` walks
+the stored type, the result is read through the store) -/
 def opBody (G : GLang) (c : GCfg) (root : Node) (origin : Option Node) (g0 : GState) (cur : Nat) (name : String)
     (ty : Term) (intermediate : Bool) : Except GErr (GState × Nat) :=
-  let out := outputType 1000 ty
+  let out := normT G.store (outputType 1000 ty)
   let g := opTriples c root g0 cur name
   let r : Except GErr GState :=
     if c.withTypes && (c.withNoncanonicalTypes || inCanon G out) && (c.withIntermediateTypes || !intermediate) then
@@ -149,10 +152,15 @@ theorem GStep.curFresh {c : GCfg} (current : Option Nat) (g : GState) :
   | none => exact .fresh g
   | some k => exact .refl g
 
+theorem annotateType_gstep_ov {G : GLang} {c : GCfg} {g : GState} {root : Node} {cur : Nat} {ty : Term}
+    {mf : Bool} {ov : Option Bool} {g' : GState} (h : annotateType G c g root cur ty mf ov = .ok g') :
+    GStep c NotFD AnyQ g g' :=
+  .ty ((annotateType_step_ov G c g root cur ty mf ov g' h).mono (fun _ h => NotFD_of_annPred h) (fun _ _ => trivial))
+
 theorem annotateType_gstep {G : GLang} {c : GCfg} {g : GState} {root : Node} {cur : Nat} {ty : Term}
     {mf : Bool} {g' : GState} (h : annotateType G c g root cur ty mf = .ok g') :
     GStep c NotFD AnyQ g g' :=
-  .ty ((annotateType_step G c g root cur ty mf g' h).mono (fun _ h => NotFD_of_annPred h) (fun _ _ => trivial))
+  annotateType_gstep_ov h
 
 theorem srcBody_step {G : GLang} {c : GCfg} {root : Node} {origin : Option Node} {g0 : GState} {cur id : Nat}
     {ty : Term} {g' : GState} {n : Nat} (h : srcBody G c root origin g0 cur id ty = .ok (g', n)) :
@@ -166,7 +174,7 @@ theorem srcBody_step {G : GLang} {c : GCfg} {root : Node} {origin : Option Node}
     obtain ⟨rfl, rfl⟩ := h
     refine ⟨.trans (.pushSrc g0 (id, cur)) (.trans ?_ (.originAdd origin g2 cur)), rfl⟩
     split at hr
-    · exact annotateType_gstep hr
+    · exact annotateType_gstep_ov hr
     · simp only [Except.ok.injEq] at hr
       rw [← hr]; exact .refl _
 
